@@ -3,4 +3,4 @@
 cd /verif && /venv/bin/python -c "
 import sys; sys.path.insert(0,'tools/harness')
 import common
-common.ensure_makefile()" && cd /verif/coq && timeout 1500 make -j16 "$@" 2>&1 | grep -v "^Closed under\|^COQDEP\|^COQC" | tail -40
+common.ensure_makefile()" && cd /verif/coq && (timeout 1500 make -j16 "$@" 2>&1; echo "make exit $?") | grep -v "^Closed under\|^COQDEP\|^COQC" | tail -40
